@@ -301,69 +301,65 @@ func Entails(facts []Lin, goal Lin) bool {
 }
 
 // Infeasible reports whether the conjunction (each >= 0) has no rational solution
-// given atom bounds and defining facts.
+// given atom bounds and defining facts. The last constraint is the focus (negated goal):
+// only constraints connected to it through shared atoms are used.
 func Infeasible(cons []Lin) bool {
-	// substitute known constants and re-linearise products
-	cons = simplifySystem(cons)
-	// relevant atoms: closure from the last constraint (the negated goal) over shared atoms
-	rel := map[*Atom]bool{}
 	if len(cons) == 0 {
 		return false
 	}
-	for a := range cons[len(cons)-1].T {
-		rel[a] = true
+	focus := cons[len(cons)-1]
+	if len(focus.T) == 0 {
+		return focus.C < 0
 	}
-	if len(cons[len(cons)-1].T) == 0 {
-		return cons[len(cons)-1].C < 0
-	}
-	// include defining facts of atoms as constraints
-	var all []Lin
-	seenDef := map[*Atom]bool{}
-	var addDefs func(a *Atom)
-	addDefs = func(a *Atom) {
-		if seenDef[a] {
+	// relevance closure over shared atoms (product atoms pull in their factors, atoms pull in their defs)
+	rel := map[*Atom]bool{}
+	var defs []Lin
+	var addAtom func(a *Atom)
+	addAtom = func(a *Atom) {
+		if rel[a] {
 			return
 		}
-		seenDef[a] = true
+		rel[a] = true
+		if a.Kind == "mul" {
+			for b := range a.A.T {
+				addAtom(b)
+			}
+			for b := range a.B.T {
+				addAtom(b)
+			}
+		}
 		for _, d := range a.Defs {
-			all = append(all, d)
+			defs = append(defs, d)
 			for b := range d.T {
-				addDefs(b)
+				addAtom(b)
 			}
 		}
 	}
-	for _, c := range cons {
-		for a := range c.T {
-			addDefs(a)
-		}
+	for a := range focus.T {
+		addAtom(a)
 	}
-	all = append(all, cons...)
-	changed := true
-	used := make([]bool, len(all))
-	for changed {
+	used := make([]bool, len(cons))
+	used[len(cons)-1] = true
+	for changed := true; changed; {
 		changed = false
-		for i, c := range all {
+		for i, c := range cons {
 			if used[i] {
 				continue
 			}
-			touch := false
 			for a := range c.T {
 				if rel[a] {
-					touch = true
+					used[i] = true
+					changed = true
+					for b := range c.T {
+						addAtom(b)
+					}
 					break
-				}
-			}
-			if touch {
-				used[i] = true
-				changed = true
-				for a := range c.T {
-					rel[a] = true
 				}
 			}
 		}
 	}
-	var rows []row
-	for i, c := range all {
+	var sel []Lin
+	for i, c := range cons {
 		if len(c.T) == 0 {
 			if c.C < 0 {
 				return true
@@ -371,12 +367,27 @@ func Infeasible(cons []Lin) bool {
 			continue
 		}
 		if used[i] {
-			rows = append(rows, row{c: c.C, t: c.T})
+			sel = append(sel, c)
 		}
 	}
-	// atom bounds
-	atoms := make([]*Atom, 0, len(rel))
-	for a := range rel {
+	sel = append(sel, defs...)
+	sel = simplifySystem(sel)
+	var rows []row
+	atomSet := map[*Atom]bool{}
+	for _, c := range sel {
+		if len(c.T) == 0 {
+			if c.C < 0 {
+				return true
+			}
+			continue
+		}
+		rows = append(rows, row{c: c.C, t: c.T})
+		for a := range c.T {
+			atomSet[a] = true
+		}
+	}
+	atoms := make([]*Atom, 0, len(atomSet))
+	for a := range atomSet {
 		atoms = append(atoms, a)
 	}
 	sort.Slice(atoms, func(i, j int) bool { return atoms[i].ID < atoms[j].ID })
@@ -651,4 +662,25 @@ func evalPinned(l Lin, pinned map[*Atom]int64) (int64, bool) {
 		v += k * p
 	}
 	return v, true
+}
+
+// hashing (order-independent) used for state fingerprints
+func mix64(x uint64) uint64 {
+	x ^= x >> 33
+	x *= 0xff51afd7ed558ccd
+	x ^= x >> 33
+	x *= 0xc4ceb9fe1a85ec53
+	x ^= x >> 33
+	return x
+}
+
+// Hash returns two independent 64-bit hashes of l.
+func (l Lin) Hash() (uint64, uint64) {
+	h1 := mix64(uint64(l.C) + 0x9e3779b97f4a7c15)
+	h2 := mix64(uint64(l.C) ^ 0xc2b2ae3d27d4eb4f)
+	for a, k := range l.T {
+		h1 += mix64(uint64(a.ID)*0x100000001b3+uint64(k)) * 0x9e3779b97f4a7c15
+		h2 += mix64(uint64(a.ID)*0x1000193+uint64(k)*0x27d4eb2f165667c5) * 0xc2b2ae3d27d4eb4f
+	}
+	return h1, h2
 }
